@@ -284,6 +284,14 @@ func (h *handler1) handleClientPublish(ctx context.Context, snPublish *snPkts1.P
 func (h *handler1) handleBrokerPublish(ctx context.Context, mqPublish *mqPkts.PublishPacket) error {
 	msgID := mqPublish.MessageID
 
+	// MQTT-SN does not support fragmentation => the message must fit into one
+	// MQTT-SN packet (4B header + 5B PUBLISH fields + payload).
+	if len(mqPublish.Payload) > snPkts1.MaxPacketLen-9 {
+		h.log.Error("Dropping message from MQTT broker, payload too long for MQTT-SN (%d bytes): topic %q",
+			len(mqPublish.Payload), mqPublish.TopicName)
+		return nil
+	}
+
 	// Get TopicID
 	var needsRegister bool
 	var topicID uint16
